@@ -55,14 +55,14 @@ func (C08) Gen(rt *rapid.T, tier string) any {
 		}
 	}
 	cfg.UseGitignore = rapid.Bool().Draw(rt, "usegitignore")
-	cfg.ReadSymlinks = rapid.IntRange(0, 3).Draw(rt, "readsymlinks") == 0
-	if rapid.IntRange(0, 3).Draw(rt, "usemaxsize") == 0 {
+	cfg.ReadSymlinks = rapid.IntRange(0, 3).Draw(rt, "readsymlinks") == 3
+	if rapid.IntRange(0, 3).Draw(rt, "usemaxsize") == 3 {
 		cfg.MaxFileSize = rapid.IntRange(1, 30).Draw(rt, "maxsize")
 	}
 	switch rapid.IntRange(0, 5).Draw(rt, "skipmode") {
-	case 0:
+	case 4:
 		cfg.SkipRegex = rapid.SampledFrom(skipRegexes).Draw(rt, "skipregex")
-	case 1:
+	case 5:
 		cfg.SkipGlob = rapid.SampledFrom(skipGlobs).Draw(rt, "skipglob")
 	}
 	nd := rapid.IntRange(0, 3).Draw(rt, "ndetectors")
@@ -85,7 +85,7 @@ func (C08) Gen(rt *rapid.T, tier string) any {
 	}
 	sc := &C08Scenario{Cfg: cfg, Reps: 2}
 	for o := 0; o < norders; o++ {
-		ord := Order{NoReadDirFile: rapid.IntRange(0, 3).Draw(rt, fmt.Sprintf("o%d.nrdf", o)) == 0}
+		ord := Order{NoReadDirFile: rapid.IntRange(0, 3).Draw(rt, fmt.Sprintf("o%d.nrdf", o)) == 3}
 		for ri, r := range cfg.Roots {
 			m := map[string][]int{}
 			for _, d := range r.Tree.Dirs() {
